@@ -341,3 +341,15 @@ for _pid, _op in (("C07", "req"), ("C12", "req"), ("C02", "grease")):
 PROPS["C07"]["rule"] += "; function level: request::nonce_from_request called directly on a long-lived 64 KiB buffer holding stale content (15 000 quick / 150 000 thorough datagrams: valid, 18 invalid kinds, one- and two-step structured mutants of valid requests, VER-list and SRV variants, nonce-length variants) judged by the reference classification"
 PROPS["C12"]["rule"] += "; function level: the same 15 000 / 150 000 direct nonce_from_request cases incl. random VER lists of length 0..6 and SRV absent / correct / other server / truncated / extended"
 PROPS["C02"]["rule"] += "; function level: Grease::add_errors on 1500 / 6000 response-shaped messages: result is the original, or is rejected by the reference decoder (reordering), or is a signature corruption (SIG replaced, NONC dropped) - no third state"
+
+
+EXTRA2 = {
+    "C03": ["C03_accepts_spec_valid"],
+    "C09": ["C09_no_cross_client"],
+    "C05": ["C05_values_aligned"],
+    "C06": ["C05_values_aligned"],
+    "C16": ["C16_bad_seed_text_refused"],
+}
+for _pid, _ts in EXTRA2.items():
+    PROPS[_pid]["extra_modules"] = sorted(set(PROPS[_pid].get("extra_modules", []) + ["Rough.Props.Extra2"]))
+    PROPS[_pid]["theorems"] = PROPS[_pid]["theorems"] + ["Rough.Props.Extra2." + t for t in _ts]
